@@ -275,6 +275,15 @@ def run_case(case, acc):
         for f, _ in VC_MULTI:
             for v in vals:
                 vcard_one({'name': 'N', 'displayname': 'D', f: v}, acc, symbol=True)
+        # documented type "iterable of strings": one-shot iterables (generator, iterator, map) must give what a list gives
+        for f in ('email', 'phone', 'videophone', 'url'):
+            for items in (['a'], ['a', 'b;c'], ['x:y', 'z', 'w']):
+                for mk in (lambda it: (x for x in it), iter, lambda it: map(str, it), tuple, set if len(items) == 1 else list):
+                    oneshot_mecard(f, items, mk, acc)
+        for f, _ in VC_MULTI[:4]:
+            for items in (['a'], ['a', 'b;c']):
+                for mk in (lambda it: (x for x in it), iter, lambda it: map(str, it)):
+                    oneshot_vcard(f, items, mk, acc)
         d = datetime.date(2020, 2, 29)
         for b in (d, '20200229'):
             mecard_one({'name': 'N', 'birthday': b}, acc, symbol=True)
@@ -298,6 +307,29 @@ def run_case(case, acc):
         vcard_one(dict(case[1]), acc, symbol=True)
     else:
         raise ValueError(kind)
+
+
+def oneshot_mecard(field, items, mk, acc):
+    case = ('multi',)
+    got = helpers.make_mecard_data(name='N', **{field: mk(items)})
+    want = helpers.make_mecard_data(name='N', **{field: list(items)})
+    kv, prob = parse_fields(got[7:])
+    exp = [('N', 'N')] + [(ME_KEYS[field], x) for x in items]
+    good = prob is None and sorted(kv) == sorted(exp) and got == want
+    acc.eval(('oneshot-mecard', field, tuple(items), getattr(mk, '__name__', 'gen')), nontrivial=True, outcome=good, state=('oneshot', field))
+    acc.count('payloads')
+    if not good:
+        acc.violation('mecard-iterable/%s' % field, 'make_mecard_data(%s=<one-shot iterable of %r>) = %r; fields %r, supplied %r' % (field, items, got, kv, exp), case)
+
+
+def oneshot_vcard(field, items, mk, acc):
+    case = ('multi',)
+    got = helpers.make_vcard_data('N', 'D', **{field: mk(items)})
+    want = helpers.make_vcard_data('N', 'D', **{field: list(items)})
+    acc.eval(('oneshot-vcard', field, tuple(items), getattr(mk, '__name__', 'gen')), nontrivial=True, outcome=got == want, state=('oneshot-v', field))
+    acc.count('payloads')
+    if got != want or got.count('\r\n') != 5 + len(items):
+        acc.violation('vcard-iterable/%s' % field, 'make_vcard_data(%s=<one-shot iterable of %r>) differs from the list form: %r' % (field, items, got), case)
 
 
 def geo_case(acc):
@@ -485,7 +517,7 @@ def epc_limits(acc):
     bad = [dict(name='n' * 71), dict(name=''), dict(name=None), dict(iban='ABCD'), dict(iban='I' * 35), dict(iban=None), dict(bic='1234567'), dict(bic='123456789'),
            dict(bic='123456789012'), dict(purpose='ABC'), dict(purpose='ABCDE'), dict(text='x' * 141), dict(text=None), dict(text=None, reference='R' * 36),
            dict(reference='RF18'), dict(amount=0), dict(amount='0.001'), dict(amount=decimal.Decimal('0.009')), dict(amount=1e9), dict(amount='1000000000'),
-           dict(amount=-1), dict(encoding=0), dict(encoding=9), dict(encoding='utf-16'), dict(encoding='latin1x'), dict(amount='999999999.995')]
+           dict(amount=-1), dict(amount='0.0051'), dict(amount='0.0099'), dict(amount=decimal.Decimal('999999999.991')), dict(amount='999999999.994'), dict(amount=0.0075), dict(encoding=0), dict(encoding=9), dict(encoding='utf-16'), dict(encoding='latin1x'), dict(amount='999999999.995')]
     for extra in bad:
         kw = dict(BASE)
         kw.update(extra)
